@@ -55,6 +55,10 @@ class _Resume(Exception):
         self.kind = kind
 
 
+_SIMPLE_WITH_CODE = ('let', 'setret', 'print', 'exit', 'goto', 'gosub',
+                     'return', 'callsub', 'dim', 'end', 'beep', 'read',
+                     'restore', 'onerror', 'resume', 'input', 'raw')
+
 ERR_CODES = {OVERFLOW: 10, DIV0: 14, SUBSCRIPT: 11, ILLEGAL: 9, DEVICE: 3}
 
 
@@ -290,6 +294,8 @@ class Interp:
         self.cur_line = None
         self.err_line = None
         self.lines = []          # scripted INPUT response lines
+        self.exec_lines = []     # lines of executed simple statements
+        self.exec_count = {}     # id(statement occurrence) -> executions
         self.on_error = None     # None | 'next' | label
         self.in_handler = False
         self.err_code = 0
@@ -631,8 +637,12 @@ class Interp:
         while True:
             self.tick()
             saved = self.cur_line
+            self.exec_count[id(s)] = self.exec_count.get(id(s), 0) + 1
             if ln is not None:
                 self.cur_line = ln
+                if s[0] in _SIMPLE_WITH_CODE and not (
+                        s[0] == 'dim' and all(d[1] is None for d in s[2])):
+                    self.exec_lines.append(ln)
             try:
                 self._stmt(s)
                 # statements executed by procedures called from this one
